@@ -171,6 +171,8 @@ registration_accepted(refobs_t *o, const struct ro_emit *e, struct ro_reg **reg_
   if (r->have_obs && ro_serial_older(e->obs, r->last_obs))
     v = RO_V_REG_RESPONSE_OLDER;
   else {
+    if (!r->have_obs || ro_serial_older(r->last_obs, e->obs))
+      r->obs_from_reg = 1;
     r->last_obs = e->obs & 0xFFFFFF;
     r->have_obs = 1;
   }
@@ -342,11 +344,13 @@ ro_emit(refobs_t *o, const struct ro_emit *e, struct ro_reg **reg_out) {
   }
 
   int v = RO_OK;
-  if (r->have_obs && !ro_serial_older(r->last_obs, e->obs))
-    v = RO_V_NOT_INCREASING;
-  else {
+  if (r->have_obs && !ro_serial_older(r->last_obs, e->obs)) {
+    v = (e->obs & 0xFFFFFF) == r->last_obs && r->obs_from_reg ? RO_V_EQUALS_REG_RESPONSE : RO_V_NOT_INCREASING;
+    r->obs_from_reg = 0;
+  } else {
     r->last_obs = e->obs & 0xFFFFFF;
     r->have_obs = 1;
+    r->obs_from_reg = 0;
   }
   if (e->type == 1) {
     r->non_run++;
